@@ -151,7 +151,8 @@ def run(ctx):
         vals = values_for(rng, kind, bits, quick)
         if kind == 2:
             vals = [v for v in vals if v < 4] or [0, 1]     # enums: stay inside every enumeration's value range
-        for v in vals:
+        # narrow fields (few values): every value with and without something carried below the layer; wider ones: one or the other
+        for v, carry in [(v_, c_) for v_ in vals for c_ in ((False, True) if bits <= 4 else (rng.random() < 0.5,))]:
             lines = ['new ' + cls]
             others = [o for o in by_class[cls] if o[1] != fld and o[2] in (1, 2, 3, 4, 6)]
             for o in rng.sample(others, min(len(others), 5)):
@@ -160,7 +161,7 @@ def run(ctx):
                     continue
                 lines.append('set 0 %s %d' % (o[1], ov))
             comp = (~v) & ((1 << min(bits, 64)) - 1) if kind in (1, 3) else ((v + 1) % 4 if kind == 2 else v ^ 0x5a5a5a5a5a5a5a5a)
-            if rng.random() < 0.3:
+            if carry:
                 lines.append('raw x' + bytes(rng.randrange(256) for _ in range(rng.choice([1, 4, 20]))).hex())      # the layer carries something
             lines += ['ser', 'view', 'set 0 %s %d' % (fld, comp), 'set 0 %s %d' % (fld, v), 'ser', 'view']
             sid = 's%d' % n
